@@ -158,8 +158,8 @@ def gen_unary(fn):
                     pass                          # numpy rejects these arguments for this shape
         if tier != "thorough":
             space = rng.sample(space, min(len(space), QUICK.get(fn, 40)))
-        for i, (s, pos, kw) in enumerate(space):
-            for layout in (layouts(s) if tier == "thorough" and len(space) < 1500 else (layouts(s)[i % len(layouts(s))],)):
+        for s, pos, kw in space:
+            for layout in (layouts(s) if tier == "thorough" and len(space) < 1500 else (rng.choice(layouts(s)),)):
                 yield {"fn": fn, "a": rpoly(rng, s, layout), "layout": layout, "pos": pos, "kw": kw, "via": rng.choice(UNARY[fn])}
     return gen
 
@@ -201,8 +201,8 @@ def gen_join(tier, rng):
                 space.append((fn, s1, s2, kw))
             except Exception:
                 pass
-    for i, (fn, s1, s2, kw) in enumerate(space if tier == "thorough" else rng.sample(space, 250)):
-        lay = [LAYOUTS[i % 3], ("C", "C", "F", "T")[i % 4]]
+    for fn, s1, s2, kw in (space if tier == "thorough" else rng.sample(space, 250)):
+        lay = [rng.choice(LAYOUTS), rng.choice(LAYOUTS)]
         ops = [rpoly(rng, s1, lay[0], names=rng.choice(NAMESETS)), other(rng, s2, lay[1])]
         if rng.random() < 0.3:      # a third operand shaped like one of the two
             k = rng.randrange(2)
@@ -213,18 +213,26 @@ def gen_join(tier, rng):
 
 def gen_broadcast(tier, rng):
     space = [c for n in (1, 2, 3) for c in itertools.product(SHAPES, repeat=n) if (n < 3 or all(len(s) < 3 for s in c)) and fits(*c) is not None]
-    for i, c in enumerate(space if tier == "thorough" else rng.sample(space, 150)):
-        lay = [LAYOUTS[(i + j) % 3] for j in range(len(c))]
+    for c in (space if tier == "thorough" else rng.sample(space, 150)):
+        lay = [rng.choice(LAYOUTS) for _ in c]
         yield {"fn": "broadcast_arrays", "ops": [rpoly(rng, s, l, names=rng.choice(NAMESETS)) for s, l in zip(c, lay)], "layouts": lay, "kw": {},
                "via": rng.choice(NP2)}
 
 
 def gen_where(tier, rng):
     space = [c for c in itertools.product(SHAPES, repeat=3) if (all(len(s) < 3 for s in c) or len(set(c)) == 1) and fits(*c) is not None]
-    for i, (sc, s1, s2) in enumerate(space if tier == "thorough" else rng.sample(space, 150)):
-        lay = [LAYOUTS[i % 3], ("C", "F", "T", "C")[i % 4]]
+    for sc, s1, s2 in (space if tier == "thorough" else rng.sample(space, 150)):
+        lay = [rng.choice(LAYOUTS), rng.choice(LAYOUTS)]
         yield {"fn": "where", "cond": nested(rng, sc, [True, False]), "ops": [rpoly(rng, s1, lay[0], names=rng.choice(NAMESETS)), other(rng, s2, lay[1])],
                "layouts": lay, "kw": {}, "via": rng.choice(NP2)}
+
+
+def gen_choose(tier, rng):
+    space = [(n, s, sa) for n in (1, 2, 3) for s in SHAPES[:13] for sa in SHAPES[:13] if fits(s, sa) is not None]
+    for n, s, sa in (space if tier == "thorough" else rng.sample(space, 120)):
+        mode, lay = rng.choice(["raise", "raise", "wrap", "clip"]), rng.choice(LAYOUTS)
+        yield {"fn": "choose", "cond": nested(rng, sa, list(range(n)) if mode == "raise" else list(range(-n - 1, n + 2))), "ops": [rpoly(rng, (n,) + s, lay)],
+               "layouts": [lay], "kw": {} if mode == "raise" and rng.random() < 0.5 else {"mode": mode}, "via": rng.choice(NP2)}
 
 
 def several(inp):
@@ -241,6 +249,9 @@ def several(inp):
     if fn == "where":
         cond = numpy.array(inp["cond"], dtype=bool)
         want, r = numpy.where(cond, *ms), attempt(mod.where, cond, *xs)
+    elif fn == "choose":
+        a = numpy.array(inp["cond"], dtype=int)
+        want, r = numpy.choose(a, ms[0], **inp["kw"]), attempt(mod.choose, a, xs[0], **inp["kw"])
     elif fn == "broadcast_arrays":
         want, r = numpy.broadcast_arrays(*ms), attempt(mod.broadcast_arrays, *xs)
         names, dtype = [tuple(x.names) for x in xs], [x.dtype for x in xs]      # each result keeps its own
@@ -259,34 +270,15 @@ check("C09", "broadcast_arrays.elements", gen_broadcast, functions=("numpoly.bro
 check("C09", "where.elements", gen_where, functions=("numpoly.where",),
       note=BOUNDS + "boolean condition and two operands of every broadcastable shape triple (<=2 dimensions, or three equal 3-d shapes), "
       + DIFFERENT + "thorough exhaustive over shape triples")(several)
-
-
-def gen_choose(tier, rng):
-    space = [(n, s, sa) for n in (1, 2, 3) for s in SHAPES[:13] for sa in SHAPES[:13] if fits(s, sa) is not None]
-    for i, (n, s, sa) in enumerate(space if tier == "thorough" else rng.sample(space, 120)):
-        mode = rng.choice(["raise", "raise", "wrap", "clip"])
-        yield {"a": nested(rng, sa, list(range(n)) if mode == "raise" else list(range(-n - 1, n + 2))), "choices": rpoly(rng, (n,) + s, LAYOUTS[i % 3]),
-               "layout": LAYOUTS[i % 3], "kw": {} if mode == "raise" and rng.random() < 0.5 else {"mode": mode}, "via": rng.choice(NP2)}
-
-
-@check("C09", "choose.elements", gen_choose, functions=("numpoly.choose",),
-       note=BOUNDS + "1-3 choices of 0-2 dimensions, integer index array (0-d included) of every broadcastable shape, modes raise (indices in "
-            "range), wrap and clip (indices in -n-1..n+1); thorough exhaustive over shape pairs")
-def choose(inp):
-    import numpoly
-    install_poison()
-    x, m, bad = make(inp["choices"], inp["layout"])
-    if bad:
-        return bad
-    a, before = numpy.array(inp["a"], dtype=int), snapshot(x)
-    r = attempt((numpoly if inp["via"] == "numpoly" else numpy).choose, a, x, **inp["kw"])
-    return ok(r, numpy.choose(a, m, **inp["kw"]), x.names, x.dtype) or unchanged(before, x)
+check("C09", "choose.elements", gen_choose, functions=("numpoly.choose",),
+      note=BOUNDS + "1-3 choices of 0-2 dimensions, integer index array (0-d included) of every broadcastable shape, modes raise (indices in "
+      "range), wrap and clip (indices in -n-1..n+1); thorough exhaustive over shape pairs")(several)
 
 
 def gen_full(tier, rng):
     targets = [list(s) for s in SHAPES + ZSHAPES] + [0, 1, 2, 3]
-    for i in range(count(tier, 150, 1500)):
-        lay, dt = LAYOUTS[i % 3], rng.choice(["int64", "float64"])
+    for _ in range(count(tier, 150, 1500)):
+        lay, dt = rng.choice(LAYOUTS), rng.choice(["int64", "float64"])
         shape = rng.choice(targets)
         inp = {"fn": "full", "shape": shape, "layout": lay, "kw": rng.choice([{}, {}, {"order": "F"}, {"order": "C"}]), "via": "numpoly"}
         tup = tuple(shape) if isinstance(shape, list) else (shape,)
@@ -336,7 +328,7 @@ def decode(idx):
 
 
 def gen_index(tier, rng):
-    for i in range(count(tier, 400, 6000)):
+    for _ in range(count(tier, 400, 6000)):
         s = rng.choice(SHAPES + ZSHAPES[:2] + ZSHAPES[4:5])
         for _ in range(20):
             idx = [rng.choice(axis_items(n)) for n in s[: rng.randint(0, len(s))]]
@@ -351,7 +343,7 @@ def gen_index(tier, rng):
                 break
             except Exception:
                 idx = []                          # numpy rejects this index: fall back to p[()]
-        lay = layouts(s)[i % len(layouts(s))]
+        lay = rng.choice(layouts(s))
         yield {"a": rpoly(rng, s, lay), "layout": lay, "index": idx, "bare": len(idx) == 1 and rng.random() < 0.7}
 
 
@@ -370,8 +362,8 @@ def getitem(inp):
 
 
 def gen_iter(tier, rng):
-    for i, s in enumerate([s for s in SHAPES + ZSHAPES if s] * count(tier, 3, 30)):
-        lay = layouts(s)[(i // 46 + i) % len(layouts(s))]
+    for s in [s for s in SHAPES + ZSHAPES if s] * count(tier, 3, 30):
+        lay = rng.choice(layouts(s))
         yield {"a": rpoly(rng, s, lay), "layout": lay, "how": rng.choice(["list", "for", "unpack", "flat"])}
 
 
